@@ -3,6 +3,8 @@ import ast
 
 from .. import norm as N
 from .common import *
+from ..summ import Summariser as _S
+S_POSITIONAL = _S.POSITIONAL
 
 META = {
     "level": "other",
@@ -334,6 +336,10 @@ def run(ctx):
             if fi.cls is None and getattr(fi, "outer", None) is None and not any(isinstance(pp, ast.FunctionDef) for pp in parents(fi.node)):
                 # a package-level scope factory is judged where it is used: S inlines it into the protocol methods that call it, and a
                 # method whose call could not be inlined is reported below ("returns without creating its nested context")
+                continue
+            if fi.cls is not None and fi.name not in S_POSITIONAL and not fi.name.startswith("_emit") and getattr(fi, "outer", None) is None \
+                    and fi.name not in ("parse_stream", "build_stream", "sizeof", "parse", "build"):
+                # likewise a scope factory that is a helper method of the class (`self._childcontext(context, stream)`): inlined into its callers
                 continue
             n = check_newctx(ctx, fi, paths)
             total += n
